@@ -120,6 +120,32 @@ theorem swap_out_le {W U : Nat} {m m' : Market} {q : SwapParams} {c : SwapCalc}
     rw [n.tokenOut, hfl]
     apply Nat.div_le_div_right; apply Nat.mul_le_mul_right; have := n.tokenIn; omega
 
+/-- **a swap does not dilute the liquidity providers**: what the liquidity pool receives on the
+input side, valued at the MIN input price, is worth at least what it pays on the output side at the
+MAX output price (the impact-pool payments are outside the liquidity pool). With unchanged supply
+the value of one market token — at this swap's own, LP-unfavourable valuation — does not fall. -/
+theorem swap_lp_no_loss {W U : Nat} {m m' : Market} {q : SwapParams} {c : SwapCalc}
+    (h : swap W U m q = .ok (m', c)) :
+    (m.primary.amount (!q.isInLong) - m'.primary.amount (!q.isInLong)) * q.outPrice.max
+      ≤ (m'.primary.amount q.isInLong - m.primary.amount q.isInLong) * q.inPrice.min ∧
+    m'.primary.amount (!q.isInLong) ≤ m.primary.amount (!q.isInLong) ∧
+    m.primary.amount q.isInLong ≤ m'.primary.amount q.isInLong ∧ m'.supply = m.supply := by
+  obtain ⟨_, _, hc, ha, _⟩ := swap_ok h
+  obtain ⟨_, _, hpos, hneg⟩ := swapCalc_spec hc
+  have f := swapApply_spec ha
+  have hpo : mulDiv W c.tokenIn q.inPrice.min q.outPrice.max = some c.poolOut := by
+    by_cases hp : c.impactValue > 0
+    · exact (hpos hp).poolOut
+    · exact (hneg hp).poolOut
+  obtain ⟨hfl, _, _⟩ := poolOut_floor hpo
+  have e1 : m.primary.amount (!q.isInLong) - m'.primary.amount (!q.isInLong) = c.poolOut := by
+    have := f.liq_out; omega
+  have e2 : m'.primary.amount q.isInLong - m.primary.amount q.isInLong = c.tokenIn + c.fees.pool := by
+    have := f.liq_in; omega
+  rw [e1, e2]
+  refine ⟨Nat.le_trans hfl (Nat.mul_le_mul_right _ (Nat.le_add_right _ _)), by have := f.liq_out; omega,
+    by have := f.liq_in; omega, by rw [f.frame]⟩
+
 /-! ### Non-vacuity (states of `C04`): spread prices, zero fees / zero impact -/
 
 def cfgZ : MarketConfig := { cfg0 with swapImpact := ⟨2000000000, 0, 0⟩, swapFee := ⟨0, 0, 370000000, 0⟩ }
